@@ -76,7 +76,7 @@ CHECKS = {
             "Trusted: R7 rasteriser.",
             "DESIGN.md §5 C17"),
     "C18": ("coupling invariant between planner and encoder checked on generated inputs via hook H1 and the reference decoder",
-            "Exploration: plan exists when encodable, plan well-formed, latch sequence equals plan's non-ASCII modes, symbol used <= symbol predicted from the planner's chosen cost.",
+            "Exploration: plan exists when encodable (encoder succeeds, or an always-legal plain Base256 / plain ASCII witness computed by the harness fits, for those two mode sets), enumerated Base256 fields at their limits, plan well-formed, latch sequence equals plan's non-ASCII modes, symbol used <= symbol predicted from the planner's chosen cost.",
             "Trusted: hook H1 (planner statistics), R1.",
             "DESIGN.md §5 C18"),
     "C19": ("work-bound check by instrumented counters (hooks H1, H4) on adversarial generated inputs up to the maximal length",
